@@ -68,20 +68,6 @@ Definition collect2d (x0 x1 : T) (nx : nat) (y0 y1 : T) (ny : nat) : list (T * T
 End Iter.
 
 (* ------------------------------------------------------------------------------------------------ transpose_vec *)
-Fixpoint upd {A} (l : list A) (i : nat) (x : A) : list A :=
-  match l, i with
-  | [], _ => []
-  | _ :: t, 0 => x :: t
-  | h :: t, S j => h :: upd t j x
-  end.
-
-(* Vec::swap: panics when an index is out of bounds *)
-Definition swap_vec {A} (v : list A) (i j : nat) : outcome (list A) :=
-  match nth_error v i, nth_error v j with
-  | Some a, Some b => Ok (upd (upd v i b) j a)
-  | _, _ => Panic
-  end.
-
 (* `for k in lo..hi { body }` over a state, stopping at the first panic *)
 Fixpoint for_loop {S} (lo cnt : nat) (body : nat -> S -> outcome S) (s : S) : outcome S :=
   match cnt with
@@ -91,23 +77,27 @@ Fixpoint for_loop {S} (lo cnt : nat) (body : nat -> S -> outcome S) (s : S) : ou
 Definition for_range {S} (r : nat * nat) (body : nat -> S -> outcome S) (s : S) : outcome S :=
   for_loop (fst r) (snd r - fst r) body s.
 
-(* the loop nest of utils::transpose_vec; ranges, swap indices and assertions are the generated ones *)
+(* utils::transpose_vec (out of place): early return, then the double loop pushing vec[I]; the condition, the ranges, the
+   read index and the assertion reached while computing it are the generated ones.  Indexing out of bounds panics. *)
 Definition transpose_vec {A} (v : list A) (num_cols : nat) : outcome (list A) :=
-  if (num_cols =? 0)%nat then Panic   (* usize::div_ceil(len, 0): division by zero *)
+  let len := length v in
+  if transpose_early_return len num_cols then Ok v
   else
-    let len := length v in
-    for_range (transpose_outer_range len num_cols) (fun row v =>
-      for_range (transpose_inner_range len num_cols row) (fun col v =>
-        if transpose_swap_pre len num_cols row col
-        then swap_vec v (fst (transpose_swap_indices len num_cols row col)) (snd (transpose_swap_indices len num_cols row col))
-        else Panic) v) v.
+    for_range (transpose_outer_range len num_cols) (fun outer acc =>
+      for_range (transpose_inner_range len num_cols outer) (fun inner acc =>
+        if transpose_read_pre len num_cols outer inner
+        then match nth_error v (transpose_read_index len num_cols outer inner) with
+             | Some x => Ok (acc ++ [x])
+             | None => Panic
+             end
+        else Panic) acc) [].
 
 (* w is the transpose of the rows x cols row-major matrix v (w is cols x rows, row-major) *)
 Definition is_transpose {A} (rows cols : nat) (v w : list A) : Prop :=
   length w = rows * cols /\
   forall r c, r < rows -> c < cols -> nth_error w (c * rows + r) = nth_error v (r * cols + c).
 
-(* executable reference and comparison on nat matrices (used for finite enumeration and correspondence) *)
+(* executable reference on nat matrices (used for finite enumeration and correspondence) *)
 Definition mat_transpose (rows cols : nat) (v : list nat) : list nat :=
   map (fun k => nth ((k mod rows) * cols + k / rows) v 0) (seq 0 (rows * cols)).
 Definition transposes_ok (rows cols : nat) : bool :=
